@@ -4,8 +4,8 @@ namespace DustVerif.Plist
 
 def padP (p : Param) : Param := (p.1, pad4 p.2)
 
-theorem serParams_eq (ps : List Param) (h : ∀ p ∈ ps, (pad4 p.2).length < 65536) :
-    serParams ps = serRaws (ps.map padP) := by
+theorem serParams_eq (e : End) (ps : List Param) (h : ∀ p ∈ ps, (pad4 p.2).length < 65536) :
+    serParams e ps = serRaws e (ps.map padP) := by
   induction ps with
   | nil => simp [serParams, serRaws]
   | cons p ps ih =>
@@ -38,10 +38,10 @@ def WFf (g : EncField) (v : FVal) : Prop :=
   | _, _ => False
 
 /-- every parameter of the record fits the 16-bit length field -/
-def FitsU16 (E : List EncField) (d : Nat → FVal) : Prop :=
-  ∀ p ∈ recordParams E d, (pad4 p.2).length < 65536
+def FitsU16 (e : End) (E : List EncField) (d : Nat → FVal) : Prop :=
+  ∀ p ∈ recordParams e E d, (pad4 p.2).length < 65536
 
-theorem encEach_pid (pid : Nat) (c : Codec) (l : List (List PVal)) : ∀ p ∈ encEach pid c l, p.1 = pid := by
+theorem encEach_pid (e : End) (pid : Nat) (c : Codec) (l : List (List PVal)) : ∀ p ∈ encEach e pid c l, p.1 = pid := by
   induction l with
   | nil => simp [encEach]
   | cons v vs ih =>
@@ -51,7 +51,7 @@ theorem encEach_pid (pid : Nat) (c : Codec) (l : List (List PVal)) : ∀ p ∈ e
     · subst hp; rfl
     · exact ih p hp
 
-theorem fieldParams_pid (g : EncField) (v : FVal) : ∀ p ∈ fieldParams g v, p.1 = g.pid := by
+theorem fieldParams_pid (e : End) (g : EncField) (v : FVal) : ∀ p ∈ fieldParams e g v, p.1 = g.pid := by
   intro p hp
   unfold fieldParams at hp
   split at hp
@@ -60,19 +60,19 @@ theorem fieldParams_pid (g : EncField) (v : FVal) : ∀ p ∈ fieldParams g v, p
     · simp at hp
     · simp at hp; subst hp; rfl
   · simp at hp; subst hp; rfl
-  · exact encEach_pid _ _ _ p hp
+  · exact encEach_pid e _ _ _ p hp
   · simp at hp; subst hp; rfl
   · simp at hp
 
-theorem recordParams_pids (E : List EncField) (d : Nat → FVal) :
-    ∀ p ∈ recordParams E d, p.1 ∈ E.map EncField.pid := by
+theorem recordParams_pids (e : End) (E : List EncField) (d : Nat → FVal) :
+    ∀ p ∈ recordParams e E d, p.1 ∈ E.map EncField.pid := by
   induction E with
   | nil => simp [recordParams]
   | cons g gs ih =>
     intro p hp
     simp only [recordParams, List.mem_append] at hp
     rcases hp with hp | hp
-    · simp [fieldParams_pid g _ p hp]
+    · simp [fieldParams_pid e g _ p hp]
     · simp only [List.map_cons, List.mem_cons]; exact Or.inr (ih p hp)
 
 theorem filterPid_map_padP_all (q : Nat) (xs : List Param) (h : ∀ p ∈ xs, p.1 = q) :
@@ -94,9 +94,9 @@ theorem filterPid_map_padP_none (q : Nat) (xs : List Param) (h : ∀ p ∈ xs, p
 
 /-- with pairwise distinct pids, looking a field's pid up in the written list finds exactly the parameters
     of that field, in their order -/
-theorem filter_record (E : List EncField) (d : Nat → FVal) (g : EncField) (hg : g ∈ E)
+theorem filter_record (e : End) (E : List EncField) (d : Nat → FVal) (g : EncField) (hg : g ∈ E)
     (hn : distinctPids (E.map EncField.pid) = true) :
-    filterPid g.pid ((recordParams E d).map padP) = (fieldParams g (d g.pid)).map (fun p => pad4 p.2) := by
+    filterPid g.pid ((recordParams e E d).map padP) = (fieldParams e g (d g.pid)).map (fun p => pad4 p.2) := by
   induction E with
   | nil => simp at hg
   | cons h t ih =>
@@ -107,11 +107,11 @@ theorem filter_record (E : List EncField) (d : Nat → FVal) (g : EncField) (hg 
     simp only [List.mem_cons] at hg
     by_cases hgh : g = h
     · subst hgh
-      rw [filterPid_map_padP_all _ _ (fieldParams_pid g _)]
-      rw [filterPid_map_padP_none g.pid (recordParams t d)]
+      rw [filterPid_map_padP_all _ _ (fieldParams_pid e g _)]
+      rw [filterPid_map_padP_none g.pid (recordParams e t d)]
       · simp
       · intro p hp heq
-        exact hnot (heq ▸ recordParams_pids t d p hp)
+        exact hnot (heq ▸ recordParams_pids e t d p hp)
     · have hgt : g ∈ t := by
         rcases hg with hg | hg
         · exact absurd hg hgh
@@ -119,17 +119,19 @@ theorem filter_record (E : List EncField) (d : Nat → FVal) (g : EncField) (hg 
       have hne : g.pid ≠ h.pid := by
         intro heq
         exact hnot (heq ▸ List.mem_map_of_mem hgt)
-      rw [filterPid_map_padP_none g.pid (fieldParams h (d h.pid))]
+      rw [filterPid_map_padP_none g.pid (fieldParams e h (d h.pid))]
       · simp [ih hgt hrest]
       · intro p hp heq
-        exact hne ((fieldParams_pid h _ p hp) ▸ heq).symm
+        exact hne ((fieldParams_pid e h _ p hp) ▸ heq).symm
 
 
 /-! ### consistency of a schema: the side condition of the round-trip theorem (decidable) -/
 
-/-- a pid the iterator can find: 16 bit, not the sentinel, and not 0x0300 — the iterator starts at offset 0 and
-    reads the encapsulation header `00 03 00 00` as a parameter with that pid -/
-def pidOk (p : Nat) : Bool := decide (p < 65536) && p != 1 && p != 768
+/-- a pid the iterator can find: 16 bit and not the sentinel.  Before fixes/D-plist-1.patch the iterator started at
+    offset 0 and read the encapsulation header as a parameter, so the pid also had to differ from what the header
+    reads as (`hdrPid e`: 0x0300 under LE, 0x0002 under BE); the repaired decoder has no such exception -/
+def pidOk (cfg : Cfg) (e : End) (p : Nat) : Bool :=
+  decide (p < 65536) && p != 1 && (cfg.fixHdr || p != hdrPid e)
 
 /-- the decode row reads back what the encode row writes: same pid, same value codec, and the way of reading
     fits the way of writing (the default assumed for an absent parameter is the value that is not written) -/
@@ -152,12 +154,12 @@ def allCompat (E : List EncField) : List DecField → Bool
   | [] => true
   | f :: fs => hasCompat E f && allCompat E fs
 
-def allPidOk : List EncField → Bool
+def allPidOk (cfg : Cfg) (e : End) : List EncField → Bool
   | [] => true
-  | g :: gs => pidOk g.pid && allPidOk gs
+  | g :: gs => pidOk cfg e g.pid && allPidOk cfg e gs
 
-def consistent (E : List EncField) (D : List DecField) : Bool :=
-  distinctPids (E.map EncField.pid) && allPidOk E && allCompat E D
+def consistent (cfg : Cfg) (e : End) (E : List EncField) (D : List DecField) : Bool :=
+  distinctPids (E.map EncField.pid) && allPidOk cfg e E && allCompat E D
 
 theorem hasCompat_exists (E : List EncField) (f : DecField) (h : hasCompat E f = true) :
     ∃ g ∈ E, compat g f = true := by
@@ -182,7 +184,8 @@ theorem allCompat_mem (E : List EncField) (D : List DecField) (h : allCompat E D
     · subst hx; exact h.1
     · exact ih h.2 x hx
 
-theorem allPidOk_mem (E : List EncField) (h : allPidOk E = true) : ∀ g ∈ E, pidOk g.pid = true := by
+theorem allPidOk_mem (cfg : Cfg) (e : End) (E : List EncField) (h : allPidOk cfg e E = true) :
+    ∀ g ∈ E, pidOk cfg e g.pid = true := by
   induction E with
   | nil => simp
   | cons g gs ih =>
@@ -196,59 +199,68 @@ theorem allPidOk_mem (E : List EncField) (h : allPidOk E = true) : ∀ g ∈ E, 
 /-! ### decoding what was encoded -/
 
 /-- the parameter list the decoder sees for an encoded record -/
-def plOf (E : List EncField) (d : Nat → FVal) : Pl :=
-  { h0 := 0, h1 := 3, e := some .le, items := (768, []) :: (recordParams E d).map padP, tailErr := false }
+def plOf (cfg : Cfg) (e : End) (E : List EncField) (d : Nat → FVal) : Pl :=
+  { h0 := 0, h1 := hdrByte e, e := some e, items := hdrItems cfg e ++ (recordParams e E d).map padP,
+    tailErr := false }
 
 theorem decFound_h0 (cfg : Cfg) (pl : Pl) (en : End) (c : Codec) (v : Bytes) (h : pl.h0 = 0) :
     decFound cfg pl en c v = decCodec cfg en c v := by
   unfold decFound
   cases c.sty <;> simp [h]
 
-theorem decCodec_pad4 (cfg : Cfg) (c : Codec) (vs : List PVal) (h : WFc c vs) :
-    decCodec cfg .le c (pad4 (encCodec c vs)) = .ok (some (normPost c.post vs)) := by
+theorem decCodec_pad4 (cfg : Cfg) (e : End) (c : Codec) (vs : List PVal) (h : WFc c vs) :
+    decCodec cfg e c (pad4 (encCodec e c vs)) = .ok (some (normPost c.post vs)) := by
   unfold pad4
-  exact decCodec_enc cfg c vs _ h
+  exact decCodec_enc cfg e c vs _ h
 
-theorem encEach_vals (pid : Nat) (c : Codec) (l : List (List PVal)) :
-    (encEach pid c l).map (fun p => pad4 p.2) = l.map (fun vs => pad4 (encCodec c vs)) := by
+theorem encEach_vals (e : End) (pid : Nat) (c : Codec) (l : List (List PVal)) :
+    (encEach e pid c l).map (fun p => pad4 p.2) = l.map (fun vs => pad4 (encCodec e c vs)) := by
   induction l with
   | nil => simp [encEach]
   | cons v vs ih => simp [encEach, ih]
 
-theorem decList_enc (cfg : Cfg) (c : Codec) (l : List (List PVal)) (h : ∀ vs ∈ l, WFc c vs) :
-    decList cfg .le c (l.map (fun vs => pad4 (encCodec c vs))) = .ok (l.map (normPost c.post)) := by
+theorem decList_enc (cfg : Cfg) (e : End) (c : Codec) (l : List (List PVal)) (h : ∀ vs ∈ l, WFc c vs) :
+    decList cfg e c (l.map (fun vs => pad4 (encCodec e c vs))) = .ok (l.map (normPost c.post)) := by
   induction l with
   | nil => simp [decList]
   | cons v vs ih =>
     have hv : WFc c v := h v (by simp)
-    simp [decList, decCodec_pad4 cfg c v hv, ih (fun x hx => h x (by simp [hx]))]
+    simp [decList, decCodec_pad4 cfg e c v hv, ih (fun x hx => h x (by simp [hx]))]
 
-theorem items_filter (E : List EncField) (d : Nat → FVal) (g : EncField) (hg : g ∈ E)
-    (hn : distinctPids (E.map EncField.pid) = true) (hp : pidOk g.pid = true) :
-    filterPid g.pid (plOf E d).items = (fieldParams g (d g.pid)).map (fun p => pad4 p.2) := by
-  simp only [pidOk, Bool.and_eq_true, decide_eq_true_eq, bne_iff_ne, ne_eq] at hp
-  have h768 : ((768 : Nat) == g.pid) = false := by
-    simp only [beq_eq_false_iff_ne, ne_eq]; exact fun h => hp.2 h.symm
-  simp only [plOf, filterPid, h768, Bool.false_eq_true, if_false]
-  exact filter_record E d g hg hn
+theorem items_filter (cfg : Cfg) (e : End) (E : List EncField) (d : Nat → FVal) (g : EncField) (hg : g ∈ E)
+    (hn : distinctPids (E.map EncField.pid) = true) (hp : pidOk cfg e g.pid = true) :
+    filterPid g.pid (plOf cfg e E d).items = (fieldParams e g (d g.pid)).map (fun p => pad4 p.2) := by
+  simp only [pidOk, Bool.and_eq_true, decide_eq_true_eq, bne_iff_ne, ne_eq, Bool.or_eq_true] at hp
+  have hhdr : filterPid g.pid (hdrItems cfg e) = [] := by
+    unfold hdrItems
+    by_cases hf : cfg.fixHdr = true
+    · simp [hf, filterPid]
+    · have hne : (hdrPid e == g.pid) = false := by
+        simp only [beq_eq_false_iff_ne, ne_eq]
+        rcases hp.2 with h | h
+        · exact absurd h hf
+        · exact fun h' => h h'.symm
+      simp [hf, filterPid, hne]
+  simp only [plOf, filterPid_append, hhdr, List.nil_append]
+  exact filter_record e E d g hg hn
 
 /-- one field: reading it from the encoded record gives the (normalised) value that was written -/
-theorem decField_enc (cfg : Cfg) (E : List EncField) (d : Nat → FVal) (g : EncField) (f : DecField)
-    (hg : g ∈ E) (hn : distinctPids (E.map EncField.pid) = true) (hp : pidOk g.pid = true)
+theorem decField_enc (cfg : Cfg) (e : End) (E : List EncField) (d : Nat → FVal) (g : EncField) (f : DecField)
+    (hg : g ∈ E) (hn : distinctPids (E.map EncField.pid) = true) (hp : pidOk cfg e g.pid = true)
     (hc : compat g f = true) (hw : WFf g (d g.pid)) :
-    decField cfg (plOf E d) f = .ok (normField f.codec (d f.pid)) := by
-  have hfil := items_filter E d g hg hn hp
+    decField cfg (plOf cfg e E d) f = .ok (normField f.codec (d f.pid)) := by
+  have hfil := items_filter cfg e E d g hg hn hp
   obtain ⟨gp, gc, gr⟩ := g
   obtain ⟨fp, fc, fa⟩ := f
   simp only [compat, Bool.and_eq_true, beq_iff_eq] at hc
   obtain ⟨⟨hpid, hcod⟩, hrule⟩ := hc
   simp only at hpid hcod hfil hw
   subst hpid hcod
-  have hfind : findPid gp (plOf E d).items = ((fieldParams ⟨gp, gc, gr⟩ (d gp)).map (fun p => pad4 p.2)).head? := by
+  have hfind : findPid gp (plOf cfg e E d).items = ((fieldParams e ⟨gp, gc, gr⟩ (d gp)).map (fun p => pad4 p.2)).head? := by
     rw [findPid_eq_head, hfil]
-  have hh0 : (plOf E d).h0 = 0 := rfl
-  have he : (plOf E d).e = some .le := rfl
-  have ht : (plOf E d).tailErr = false := rfl
+  have hh0 : (plOf cfg e E d).h0 = 0 := rfl
+  have he : (plOf cfg e E d).e = some e := rfl
+  have ht : (plOf cfg e E d).tailErr = false := rfl
   cases gr with
   | always =>
     cases hv : d gp with
@@ -257,9 +269,9 @@ theorem decField_enc (cfg : Cfg) (E : List EncField) (d : Nat → FVal) (g : Enc
       simp only [fieldParams, hv, List.map_cons, List.map_nil, List.head?_cons] at hfind
       cases fa with
       | required =>
-        simp [decField, seek, he, hfind, decFound_h0 _ _ _ _ _ hh0, decCodec_pad4 cfg gc vs hw, normField]
+        simp [decField, seek, he, hfind, decFound_h0 _ _ _ _ _ hh0, decCodec_pad4 cfg e gc vs hw, normField]
       | optional dflt =>
-        simp [decField, seek, he, hfind, decFound_h0 _ _ _ _ _ hh0, decCodec_pad4 cfg gc vs hw, normField]
+        simp [decField, seek, he, hfind, decFound_h0 _ _ _ _ _ hh0, decCodec_pad4 cfg e gc vs hw, normField]
       | requiredOk => simp at hrule
       | list => simp at hrule
       | typeInfo sw => simp at hrule
@@ -282,7 +294,7 @@ theorem decField_enc (cfg : Cfg) (E : List EncField) (d : Nat → FVal) (g : Enc
         · have hbeq : (vs == a) = false := by simpa using heq
           simp only [fieldParams, hv, hbeq, Bool.false_eq_true, if_false, List.map_cons, List.map_nil,
             List.head?_cons] at hfind
-          simp [decField, seek, he, hfind, decFound_h0 _ _ _ _ _ hh0, decCodec_pad4 cfg gc vs hw, normField]
+          simp [decField, seek, he, hfind, decFound_h0 _ _ _ _ _ hh0, decCodec_pad4 cfg e gc vs hw, normField]
       | required => simp at hrule
       | requiredOk => simp at hrule
       | list => simp at hrule
@@ -302,7 +314,7 @@ theorem decField_enc (cfg : Cfg) (E : List EncField) (d : Nat → FVal) (g : Enc
         | some vs =>
           simp only [WFf, hv] at hw
           simp only [fieldParams, hv, List.map_cons, List.map_nil, List.head?_cons] at hfind
-          simp [decField, seek, he, hfind, decFound_h0 _ _ _ _ _ hh0, decCodec_pad4 cfg gc vs hw, normField]
+          simp [decField, seek, he, hfind, decFound_h0 _ _ _ _ _ hh0, decCodec_pad4 cfg e gc vs hw, normField]
       | one vs => simp [WFf, hv] at hw
       | many l => simp [WFf, hv] at hw
       | blob b => simp [WFf, hv] at hw
@@ -317,7 +329,7 @@ theorem decField_enc (cfg : Cfg) (E : List EncField) (d : Nat → FVal) (g : Enc
       | many l =>
         simp only [WFf, hv] at hw
         simp only [fieldParams, hv, encEach_vals] at hfil
-        simp [decField, he, hfil, decList_enc cfg gc l hw, ht, normField]
+        simp [decField, he, hfil, decList_enc cfg e gc l hw, ht, normField]
       | one vs => simp [WFf, hv] at hw
       | opt o => simp [WFf, hv] at hw
       | blob b => simp [WFf, hv] at hw
